@@ -12,9 +12,10 @@ TIE = ('hand-written executable Lean model of create_fracs / get_dx (Spec.Fracs,
 TECHNIQUE = 'Lean 4 proofs of the building blocks over an executable model + bit-exact correspondence + exhaustive-in-structure property oracle'
 PROVED = ['the log-linear interpolation behind every inserted node reproduces both end points of its segment, stays strictly between them and is strictly increasing in the fraction',
           'the k-th of n equal subdivisions lies strictly inside its segment; 10**log10 d = d for d > 0',
+          'the fractions of the discretised grading are strictly increasing for EVERY input (dict overwrite keeps keys pairwise distinct through all loops; sorted() of distinct keys is strictly increasing)',
           'get_dx rejects every fraction outside (0,1), returns the tabulated diameter at a tabulated fraction, and is the C18 lookup on (fraction, log10 d) in between']
 HYPOTHESES = []
-MONITORED = ['global clauses on the whole output (strict ordering of fractions and diameters, at least ten fractions, reproduction of every given point above the limit, '
+MONITORED = ['global clauses on the whole output (strict ordering of diameters, fractions inside [0,1), at least ten fractions, reproduction of every given point above the limit, '
              'start at the limiting diameter iff X > 0, never below it) - decided by the oracle on the implementation for every generated grading; '
              'floating-point rounding of 10**log10']
 RULE = ('(Dp, fluid, rhos) in E x D15<D50<D85 with ratios in (1.02, 6] incl. the band D15 just above the limit and near-uniform gradings (ratios 1.02-1.05), '
@@ -52,6 +53,22 @@ def gen_case(rng):
                 d0 = (dl * 1.02 + pts[0.15]) / 2 if pts[0.15] > dl * 1.02 else pts[0.15] * 0.9
         pts[f0] = d0
         kind = f'4pt@{f0}:' + ('finer' if d0 < dl else 'coarser')
+    elif r < 0.6:
+        # a longer tabulated distribution (sieve curve): n points, log-linear-ish between a lowest and a highest diameter, fractions strictly inside (0,1);
+        # the lowest points may lie below the limit (they are discarded) and the grading may or may not reach the limit at a positive fraction
+        n = rng.choice([5, 6, 7, 8, 9, 10, 11, 12, 16, 20, 24, 32])
+        top = min(pts[0.85] * rng.uniform(1.0, 1.5), 0.5 * p['Dp'])
+        lowest = rng.choice([dl * rng.uniform(0.2, 0.9), dl * rng.uniform(1.05, 1.5), pts[0.15]])
+        lowest = min(lowest, top / 3.0)
+        f_lo, f_hi = rng.choice([0.02, 0.05, 0.1, 0.15]), rng.choice([0.85, 0.9, 0.95, 0.98])
+        fr = sorted({round(f_lo + (f_hi - f_lo) * (i + (rng.uniform(-0.25, 0.25) if 0 < i < n - 1 else 0.0)) / (n - 1), 6) for i in range(n)})
+        n = len(fr)
+        lg = [math.log10(lowest) + (math.log10(top) - math.log10(lowest)) * i / (n - 1) for i in range(n)]
+        pts = {f: 10 ** (g + (rng.uniform(-0.2, 0.2) * (lg[1] - lg[0]) if 0 < i < n - 1 else 0.0)) for i, (f, g) in enumerate(zip(fr, lg))}
+        above = [d for d in pts.values() if d > dl]
+        kind = f'{n}pt:' + ('reaches-limit' if lowest < dl else 'above-limit')
+        if len(above) < 2:
+            return gen_case(rng)
     return p, pts, kind, (nu, rhol, dl)
 
 
@@ -136,7 +153,10 @@ def check_gsd(g, pts, dl, tol=1e-9):
             else:
                 got = loglin(nodes, f)
             if got is None or not rel_close(got, d, 1e-9):
-                return f'given point ({f}, {d}) is not reproduced (interpolant gives {got})', 'given-point'
+                # listed finding: the grading does not reach the limit at a positive fraction (X <= 0 branch, which stores no start node) and no point
+                # is interpolated in the first segment (ten or more given points): the LOWEST given point is then neither a node nor on the first segment
+                lowest = f == given[0][0] and f < fr[0] and given[0][1] > dl and len([1 for _, dd in given if dd > dl]) >= 10
+                return f'given point ({f}, {d}) is not reproduced (interpolant gives {got})', ('lowest-point-dropped' if lowest else 'given-point')
     # where does the log-linear distribution reach the limit?
     x = None
     for (f0, d0), (f1, d1) in zip(given, given[1:]):
@@ -153,6 +173,26 @@ def check_gsd(g, pts, dl, tol=1e-9):
     return None, None
 
 
+def check_lookup(ctx, s, pts, dl, inp):
+    """the diameter-at-fraction clauses on a slurry object whose grading was generated from pts"""
+    for f, d in pts.items():
+        if d > dl and not rel_close(s.get_dx(f), d, 1e-9):
+            ctx.violation(f'get_dx({f}) = {s.get_dx(f)!r} does not return the given diameter {d!r}', inp, key='gsd')
+    xs = sorted([ctx.rng.random() * 0.998 + 0.001 for _ in range(6)] + list(s.GSD.keys())[:3])
+    vals = [s.get_dx(x) for x in xs]
+    if not all(a < b for a, b in zip(vals, vals[1:])) and len(set(xs)) == len(xs):
+        ctx.violation(f'get_dx not increasing on {xs}: {vals}', inp, key='gsd')
+    for x in list(s.GSD.keys())[:4]:
+        if 0 < x < 1 and s.get_dx(x) != s.GSD[x]:
+            ctx.violation(f'get_dx({x}) differs from the tabulated diameter', inp, key='gsd')
+    for x in (0, 0.0, 1.0, -0.2, 1.0000001, 2):
+        try:
+            s.get_dx(x)
+            ctx.violation(f'get_dx({x}) accepted', inp, key='gsd')
+        except ValueError:
+            pass
+
+
 def monitor(ctx, extended=False):
     from DHLLDV import DHLLDV_framework as F
     from DHLLDV.SlurryObj import Slurry
@@ -166,29 +206,47 @@ def monitor(ctx, extended=False):
             g = F.create_fracs(dict(pts), p['Dp'], nu, rhol, p['rhos'])
             bad, clause = check_gsd(g, pts, dl)
             if bad:
-                ctx.violation(bad, inp, key='gsd')
+                ctx.violation(bad, inp, key='lowest-point-dropped' if clause == 'lowest-point-dropped' else 'gsd')
             classes.add((kind, min(g) > 0 and rel_close(g[min(g)], dl, 1e-9), len(g)))
             if kind == '3pt':
                 s = E.make_slurry(p)
                 bad, clause = check_gsd(s.GSD, pts, dl)
                 if bad:
                     ctx.violation('Slurry: ' + bad, inp, key='gsd')
-                for f, d in pts.items():
-                    if d > dl and not rel_close(s.get_dx(f), d, 1e-9):
-                        ctx.violation(f'get_dx({f}) = {s.get_dx(f)!r} does not return the given diameter {d!r}', inp, key='gsd')
-                xs = sorted([ctx.rng.random() * 0.998 + 0.001 for _ in range(6)] + list(s.GSD.keys())[:3])
-                vals = [s.get_dx(x) for x in xs]
-                if not all(a < b for a, b in zip(vals, vals[1:]) ) and len(set(xs)) == len(xs):
-                    ctx.violation(f'get_dx not increasing on {xs}: {vals}', inp, key='gsd')
-                for x in list(s.GSD.keys())[:4]:
-                    if 0 < x < 1 and s.get_dx(x) != s.GSD[x]:
-                        ctx.violation(f'get_dx({x}) differs from the tabulated diameter', inp, key='gsd')
-                for x in (0, 0.0, 1.0, -0.2, 1.0000001, 2):
-                    try:
-                        s.get_dx(x)
-                        ctx.violation(f'get_dx({x}) accepted', inp, key='gsd')
-                    except ValueError:
-                        pass
+                check_lookup(ctx, s, pts, dl, inp)
+                if ctx.rng.random() < 0.3:
+                    # history: the grading of the SAME object is regenerated directly (as the viewer's D15 / D85 boxes and the Excel loader do)
+                    # after lookups at non-node fractions; the lookup has to follow the new grading
+                    r15n = ctx.rng.uniform(1.05, 6.0)
+                    r85n = min(ctx.rng.uniform(1.05, 6.0), 0.5 * p['Dp'] / p['D50'])
+                    if r85n > 1.02:
+                        s.generate_GSD(d15_ratio=r15n, d85_ratio=r85n)
+                        pts2 = {0.15: p['D50'] / r15n, 0.5: p['D50'], 0.85: p['D50'] * r85n}
+                        inp2 = dict(inp, history=f'lookups, then generate_GSD(d15_ratio={r15n!r}, d85_ratio={r85n!r}) on the same object', points={str(k): v for k, v in pts2.items()})
+                        bad, clause = check_gsd(s.GSD, pts2, dl)
+                        if bad:
+                            ctx.violation('Slurry after regenerating the grading: ' + bad, inp2, key='gsd')
+                        check_lookup(ctx, s, pts2, dl, inp2)
         except Exception as e:   # noqa
             ctx.violation(f'raised {type(e).__name__}: {e}', inp, key='raised')
     ctx.stats['distinct_nontrivial'] = len(classes)
+
+
+KNOWN_WITNESS = {'points': {0.02: 8.56445543243892e-05, 0.130533: 0.00013161496211225096, 0.201293: 0.00020633395041375467, 0.303376: 0.00034018359862951996,
+                            0.419084: 0.0005229634571474463, 0.521739: 0.0009420852803054486, 0.592497: 0.0012889842617069623, 0.67883: 0.0021580448411863216,
+                            0.78313: 0.003336510303589639, 0.907655: 0.005723532222033156, 0.98: 0.00875532529643336},
+                 'Dp': 0.1193232287834579, 'fluid': 'salt', 'rhos': 2.684179463237147}
+
+
+def replay_known(kf):
+    """witness of the listed finding `lowest-point-dropped`: True if it still reproduces"""
+    if kf['key'] != 'lowest-point-dropped':
+        return False
+    from DHLLDV import DHLLDV_framework as F
+    w = kf.get('witness') or KNOWN_WITNESS
+    pts = {float(k): float(v) for k, v in w['points'].items()}
+    nu, rhol = E.fluids()[w['fluid']]
+    dl = E.dlim(w['Dp'], nu, rhol, w['rhos'])
+    g = F.create_fracs(dict(pts), w['Dp'], nu, rhol, w['rhos'])
+    bad, clause = check_gsd(g, pts, dl)
+    return clause == 'lowest-point-dropped'
